@@ -1,7 +1,7 @@
 /-
   InvCap — capacity accounting and the two placement views (C01).
 -/
-import TmVerif.Sched.Reach
+import TmVerif.Sched.Shape
 
 namespace TmVerif.Sched
 
@@ -22,50 +22,6 @@ theorem not_anyGt {a b : Vec} (h : a.anyGt b = false) : a.m ≤ b.m ∧ a.c ≤ 
   simp only [anyGt, Bool.or_eq_false_iff, decide_eq_false_iff_not] at h
   omega
 end Vec
-
-/-! ### keyed-list update lemmas -/
-
-theorem mem_map_upd {α} (f : α → Nat) (l : List α) (v x : α) :
-    x ∈ l.map (fun y => if f y = f v then v else y) ↔
-      (x ∈ l ∧ f x ≠ f v) ∨ (x = v ∧ ∃ y ∈ l, f y = f v) := by
-  simp only [List.mem_map]
-  constructor
-  · rintro ⟨y, hy, rfl⟩
-    by_cases h : f y = f v
-    · right; simp only [h, ↓reduceIte]; exact ⟨trivial, y, hy, h⟩
-    · left; simp only [h, ↓reduceIte]; exact ⟨hy, h⟩
-  · rintro (⟨hx, hne⟩ | ⟨rfl, y, hy, h⟩)
-    · exact ⟨x, hx, by simp [hne]⟩
-    · exact ⟨y, hy, by simp [h]⟩
-
-theorem map_upd_keys {α} (f : α → Nat) (l : List α) (v : α) :
-    (l.map (fun y => if f y = f v then v else y)).map f = l.map f := by
-  rw [List.map_map]
-  apply List.map_congr_left
-  intro y _
-  simp only [Function.comp]
-  split <;> simp_all
-
-theorem find?_key_unique {α} (f : α → Nat) (l : List α) (h : (l.map f).Nodup) (x : α) (hx : x ∈ l) :
-    l.find? (fun y => f y = f x) = some x := by
-  induction l with
-  | nil => cases hx
-  | cons a t ih =>
-    simp only [List.map_cons, List.nodup_cons] at h
-    rcases List.mem_cons.mp hx with rfl | hx
-    · simp
-    · have hne : f a ≠ f x := by
-        intro e; apply h.1; rw [e]; exact List.mem_map_of_mem hx
-      simp only [List.find?_cons, hne, decide_false]
-      exact ih h.2 hx
-
-theorem key_unique {α} (f : α → Nat) (l : List α) (h : (l.map f).Nodup) (x y : α) (hx : x ∈ l) (hy : y ∈ l)
-    (e : f x = f y) : x = y := by
-  have h1 := find?_key_unique f l h x hx
-  have h2 := find?_key_unique f l h y hy
-  rw [e] at h1
-  rw [h1] at h2
-  exact Option.some.inj h2
 
 /-! ### the invariant -/
 
@@ -121,17 +77,6 @@ theorem used_upd (apps : List App) (hnd : (apps.map (·.id)).Nodup) (a a' : App)
       have hdd := congrArg Vec.d this
       apply Vec.ext' <;> (by_cases hx : x.server = some sid <;> simp only [hx, ↓reduceIte, Vec.add_m, Vec.add_c, Vec.add_d] at hm hc hdd ⊢ <;> omega)
 
-
-abbrev updApp (apps : List App) (a' : App) : List App := apps.map (fun x => if x.id = a'.id then a' else x)
-abbrev updSrv (srvs : List Srv) (s' : Srv) : List Srv := srvs.map (fun x => if x.id = s'.id then s' else x)
-
-theorem mem_updApp {apps : List App} {a' x : App} :
-    x ∈ updApp apps a' ↔ (x ∈ apps ∧ x.id ≠ a'.id) ∨ (x = a' ∧ ∃ y ∈ apps, y.id = a'.id) :=
-  mem_map_upd (·.id) apps a' x
-
-theorem mem_updSrv {srvs : List Srv} {s' x : Srv} :
-    x ∈ updSrv srvs s' ↔ (x ∈ srvs ∧ x.id ≠ s'.id) ∨ (x = s' ∧ ∃ y ∈ srvs, y.id = s'.id) :=
-  mem_map_upd (·.id) srvs s' x
 
 /-- used after replacing `a` by `a'` (same id, same demand). -/
 theorem used_updApp {apps : List App} (hnd : (apps.map (·.id)).Nodup) {a a' : App} (ha : a ∈ apps)
@@ -372,5 +317,33 @@ theorem core_dropDangling {srvs : List Srv} {apps : List App} (hc : Core srvs ap
       · exact ⟨b, hb, hbid, hbs⟩
       · rw [hasv] at hbs; cases hbs
 
+
+
+theorem used_map (apps : List App) (f : App → App) (hsv : ∀ a, (f a).server = a.server)
+    (hd : ∀ a, (f a).demand = a.demand) (sid : Nat) : used (apps.map f) sid = used apps sid := by
+  induction apps with
+  | nil => rfl
+  | cons x t ih => simp only [List.map_cons, used_cons, hsv, hd, ih]
+
+/-- Mapping every app through a function that keeps id, server and demand. -/
+theorem core_mapSame {srvs : List Srv} {apps : List App} (hc : Core srvs apps) (f : App → App)
+    (hid : ∀ a, (f a).id = a.id) (hsv : ∀ a, (f a).server = a.server) (hd : ∀ a, (f a).demand = a.demand) :
+    Core srvs (apps.map f) := by
+  refine ⟨hc.srvIds, ?_, ?_, ?_, ?_, hc.sapps⟩
+  · rw [List.map_map]
+    have : ((fun x => x.id) ∘ f) = (fun x : App => x.id) := by funext a; exact hid a
+    rw [this]; exact hc.appIds
+  · intro x hx
+    obtain ⟨y, hy, rfl⟩ := List.mem_map.mp hx
+    rw [hd]; exact hc.demand y hy
+  · intro s hs; rw [used_map apps f hsv hd]; exact hc.free s hs
+  · intro s hs aid
+    rw [hc.views s hs aid]
+    constructor
+    · rintro ⟨b, hb, h1, h2⟩
+      exact ⟨f b, List.mem_map_of_mem hb, by rw [hid]; exact h1, by rw [hsv]; exact h2⟩
+    · rintro ⟨b, hb, h1, h2⟩
+      obtain ⟨y, hy, rfl⟩ := List.mem_map.mp hb
+      exact ⟨y, hy, by rw [← hid]; exact h1, by rw [← hsv]; exact h2⟩
 
 end TmVerif.Sched
